@@ -93,6 +93,12 @@ type Alt struct {
 	V Value
 }
 
+// ReflectV: a reflect.Value wrapping an interface value (only Kind/IsNil/Elem/CanSet are modelled)
+type ReflectV struct {
+	I    *IfaceV
+	Elem bool
+}
+
 // Opaque: value of an unsupported kind (floats etc.); using it is an error.
 type Opaque struct{ Why string }
 
